@@ -8,6 +8,7 @@ own float formula — is at least that threshold.  With never-merge every cluste
 -/
 import BBProps.C01
 import BBProofs.Merges
+import BBProofs.GenEq
 
 namespace BB
 
@@ -136,5 +137,19 @@ theorem C03_accept_sound (m : MergeFn) (X : ExpTab) (t : Rat) (new old nom : Sum
 example : (inForce { E := fun _ => 1, off := 0 } (init { thr := 1/2, bf := 3, merge := { crit := .diameter } })
     [.fit [[true]] none, .setThr (1/4), .recluster 2 0 [] false]).length = 3 := by
   simp [inForce, visited]
+
+/-! ## The same for the code itself (`BBGen.*` = this run's translation of `_merges.py`) -/
+
+/-- code: whenever the criterion object built by `get_merge_accept_fn(name, tol)` accepts a merge at
+threshold `t`, the statistic that criterion promises, of the merged summary, is at least `t` -/
+theorem C03_code_accept_sound (expf : Rat → Rat) (c : Crit) (tol t : Rat) (new old nom : Summary) (w w' w'' : W)
+    (hn : SumOk new) (ho : SumOk old) (hO : 1 ≤ old.n) (h2 : 2 ≤ new.n)
+    (h : callObj expf (BBGen.get_merge_accept_fn expf (PV.str c.name) (PV.flt (some tol))) (PV.flt (some t))
+      (PV.arr w new.ls) (PV.int new.n) (PV.arr w' old.ls) (PV.arr w'' nom.ls) (PV.int old.n) (PV.int nom.n)
+        = PV.bool true) :
+    ∃ v, stat c new = some v ∧ t ≤ v := by
+  rw [gen_dispatch, getMergeFn_name, gen_accept expf ⟨c, tol⟩ t new old nom w w' w'' hn ho hO] at h
+  have h' : accept ⟨c, tol⟩ (tabOf expf) t new old nom = true := by simpa using h
+  exact C03_accept_sound ⟨c, tol⟩ _ t new old nom h2 h'
 
 end BB
